@@ -117,22 +117,23 @@ def exCfg (n : Nat) : Cfg (List Nat) Nat := { maxPending := n, apply := fun st u
 def exEvs : List (Ev Nat) := [.update 1 10 false, .update 2 20 false, .full, .update 3 30 false, .update 4 40 true,
   .cleanupStale true, .update 5 50 false, .update 6 60 false]
 
-/-- crash after 7 store ops with `maximum_pending_updates = 3`, lazy deletes never landing: the
-    persister had reported 4 updates, recovery returns the monitor after 4 updates (id 4) — and the
-    hypotheses of `persister_recovers` hold on this instance. -/
+/-- crash after 7 store ops with `maximum_pending_updates = 3`, no lazy delete ever landing: the
+    persister had reported 3 of the 4 applied updates; the store holds the monitor written at update
+    3 and the stale files 1, 2 -/
 example : let r := runHistory (exCfg 3) (crashSched 7 none false (fun _ => false)) "m" [] ⟨0, []⟩ exEvs
-    r.started = true ∧ r.completed = 4 ∧ r.applied.length = 5 ∧
-    (match (readWithUpdates (exCfg 3) okSched { store := r.w.store } "m").2 with
-     | .ok m => m.id = 4 ∧ m.st = [10, 20, 30, 40]
-     | .error _ => False) := by decide
+    r.started = true ∧ r.completed = 3 ∧ r.applied.length = 4 ∧ r.alive = false ∧
+    r.w.store.keys = [("monitors", "", "m"), ("monitor_updates", "m", "2"), ("monitor_updates", "m", "1")] := by decide
 
-/-- no crash, a failing-with-effect write of update 5 (op 12 fails but reaches the disk): reported 4,
-    recovered 5 -/
-example : let r := runHistory (exCfg 10) (crashSched 100 (some 6) true (fun _ => true)) "m" [] ⟨0, []⟩ exEvs
-    r.completed = 4 ∧ r.alive = false ∧
-    (match (readWithUpdates (exCfg 10) okSched { store := r.w.store } "m").2 with
-     | .ok m => m.id = 5 ∧ m.st = [10, 20, 30, 40, 50]
-     | .error _ => False) := by decide
+/-- ... and every hypothesis of `persister_recovers` holds on that run (the theorem then yields a
+    recovered monitor equal to the in-memory one after 3 or 4 updates) -/
+example := persister_recovers (exCfg 3) (crashSched 7 none false (fun _ => false)) "m" [] ⟨0, []⟩ exEvs rfl
+  (by decide) List.nodup_nil (by intro nm h; simp [Store.get] at h) okSched (fun _ => rfl) { store := _ } rfl (by decide)
+
+/-- no crash, but the write of update 2 (store op 2) fails after reaching the disk: 1 reported, the
+    node stops, the file of update 2 is there (recovery returns the monitor after 2 updates) -/
+example : let r := runHistory (exCfg 10) (crashSched 100 (some 2) true (fun _ => true)) "m" [] ⟨0, []⟩ (exEvs.take 2)
+    r.completed = 1 ∧ r.applied.length = 2 ∧ r.alive = false ∧
+    r.w.store.names CHANNEL_MONITOR_UPDATE_PERSISTENCE_PRIMARY_NAMESPACE "m" = ["2", "1"] := by decide
 end NonVacuity
 
 /-! ## 3. clean-up never removes an update recovery still needs -/
@@ -166,9 +167,11 @@ theorem cleanup_never_needed {St Upd : Type} (cfg : Cfg St Upd) (sc : Sched) (na
   rw [hsplit, traceSafe_append] at hsafe
   exact hsafe.2.1 nm id lz hop
 
-/-- non-vacuity: the run of the example above does issue removals of update keys (5 of them) -/
+/-- non-vacuity: the example run issues 8 removals of update keys (consolidations at 3 and 6, one
+    `cleanup_stale_updates`), and `cleanup_never_needed` applies to it -/
 example : let r := runHistory (exCfg 3) okSched "m" [] ⟨0, []⟩ exEvs
-    (r.w.trace.filter (fun e => match e.op with | .remove _ _ => true | _ => false)).length = 9 := by decide
+    (r.w.trace.filter (fun e => match e.op with | .remove _ _ => true | _ => false)).length = 8 := by decide
+example := cleanup_never_needed (exCfg 3) okSched "m" [] ⟨0, []⟩ exEvs true
 
 /-! ## 4. the window of pending updates -/
 
@@ -194,9 +197,11 @@ theorem window_bound {St Upd : Type} (cfg : Cfg St Upd) (sc : Sched) (name : Str
   rw [List.length_range']
   exact window_le h2 h6
 
-/-- non-vacuity: with `maximum_pending_updates = 3` the example run ends with exactly 2 = 3-1 update
-    files above the stored monitor (ids 5, 6 over the monitor at 4) -/
+/-- non-vacuity: with `maximum_pending_updates = 3`, after 8 updates (the 6th persisted as a full
+    monitor) the store holds the files 7, 8 above the monitor at 6 — exactly 3 - 1 — and a stale 5 -/
 example : let r := runHistory (exCfg 3) okSched "m" [] ⟨0, []⟩ (exEvs.take 7 ++ [.update 6 60 true, .update 7 70 false, .update 8 80 false])
-    idsToLoad (r.w.store.names CHANNEL_MONITOR_UPDATE_PERSISTENCE_PRIMARY_NAMESPACE "m") 6 = some [7, 8] := by decide
+    r.completed = 8 ∧ r.w.store.names CHANNEL_MONITOR_UPDATE_PERSISTENCE_PRIMARY_NAMESPACE "m" = ["8", "7", "5"] := by decide
+example := window_bound (exCfg 3) okSched "m" [] ⟨0, []⟩ (exEvs.take 7 ++ [.update 6 60 true, .update 7 70 false, .update 8 80 false])
+  (by decide) List.nodup_nil (by intro nm h; simp [Store.get] at h) (by decide)
 
 end Ldk.C19
